@@ -127,9 +127,23 @@ struct Explorer {
         if (longest > 2 * E + 2) run.add(cn.long_runs);
         std::string f = g_dir + "/c11.bin";
         try {
-            Index ix(data.begin(), data.end(), f);
-            run.add(cn.containers);
-            battery(ix, data, queries_for(data), cs, "range-created container");
+            auto queries = queries_for(data);
+            bool ok;
+            {
+                Index ix(data.begin(), data.end(), f);
+                run.add(cn.containers);
+                ok = battery(ix, data, queries, cs, "range-created container");
+            }
+            // the sequence is "stored in a MappedPGMIndex" whichever way the container came to be: the reopened container for every array,
+            // the raw-file-created one (and its reopening) for every third array
+            if (ok) { close_leaked_fds(); Index re(f); run.add(cn.containers); ok = battery(re, data, queries, cs, "reopened container"); }
+            if (ok && (data.size() + size_t(data.front()) + size_t(data.back())) % 3 == 0) {
+                std::string raw = g_dir + "/c11raw.bin", f2 = g_dir + "/c11b.bin";
+                { FILE *fp = fopen(raw.c_str(), "wb"); fwrite(data.data(), sizeof(K), data.size(), fp); fclose(fp); }
+                { Index rw(raw, f2); run.add(cn.containers); ok = battery(rw, data, queries, cs, "raw-file-created container"); }
+                if (ok) { close_leaked_fds(); Index re2(f2); run.add(cn.containers); battery(re2, data, queries, cs, "reopened raw-file-created container"); }
+                unlink(raw.c_str()); unlink(f2.c_str());
+            }
         } catch (const std::exception &e) { run.violation(cs, std::string("construction threw on valid data: ") + e.what()); }
         close_leaked_fds();
         unlink(f.c_str());
